@@ -318,6 +318,7 @@ class Emit:
         return '(%s)%s' % (v.ty.sc(), s.cval(v))
 
 def cfname(n): return 'F_' + mangle(n)
+def PROG(tid, seq): return ' VERIF_PROG = 1;' if seq else ''
 
 BINOPS = {'add': '+', 'sub': '-', 'mul': '*', 'and': '&', 'or': '|', 'xor': '^', 'shl': '<<', 'lshr': '>>', 'udiv': '/', 'urem': '%'}
 ICMP = {'eq': ('==', 0), 'ne': ('!=', 0), 'ugt': ('>', 0), 'uge': ('>=', 0), 'ult': ('<', 0), 'ule': ('<=', 0),
@@ -403,7 +404,7 @@ def translate_function(f, tid=None, seq=False, opts=None):
             nm, ty, v = tmp[0]; code.append('%s = %s;' % (e.reg(nm), e.cval(v)))
         if seq and (cur, target) in backedges:
             k = e.nvis; e.nvis += 1; e.resume.append((k, lbl(target)))
-            code.append('if (TH[%d].held) goto %s; TH[%d].pc = %d; TH[%d].spin = 1; return; /* back-edge yield */' % (tid, lbl(target), tid, k, tid))
+            code.append('TH[%d].pc = %d; TH[%d].spin = 1; return; /* back-edge yield: a loop iteration ends the scheduling segment */' % (tid, k, tid))
         else:
             code.append('goto %s;' % lbl(target))
         return ' '.join(code)
@@ -448,11 +449,11 @@ def translate_function(f, tid=None, seq=False, opts=None):
                 if shared and (vol or atomic or opts.get('preempt', 'all') == 'all'): visible()
                 if shared and opts.get('tso') and p.kind in ('cgep', 'global') and isinstance(ty, IntT):
                     loc = TSO_LOCS.setdefault(e.cval(p), len(TSO_LOCS))
-                    out.append('  tso_commit(%d); PEND_V[%d] = 1; PEND_L[%d] = %d; PEND_X[%d] = %s;' % (tid, tid, tid, loc, tid, e.cval(v)))
+                    out.append('  tso_commit(%d); PEND_V[%d] = 1; PEND_L[%d] = %d; PEND_X[%d] = %s;%s' % (tid, tid, tid, loc, tid, e.cval(v), PROG(tid, seq)))
                 elif shared and opts.get('tso'):
-                    out.append('  tso_commit(%d); *%s = %s;' % (tid, e.cval(p), e.cval(v)))
+                    out.append('  tso_commit(%d); *%s = %s;%s' % (tid, e.cval(p), e.cval(v), PROG(tid, seq)))
                 else:
-                    out.append('  *%s = %s;' % (e.cval(p), e.cval(v)))
+                    out.append('  *%s = %s;%s' % (e.cval(p), e.cval(v), PROG(tid, seq) if shared else ''))
             elif op == 'getelementptr':
                 tk.eat('inbounds'); M.parse_type(tk); tk.expect(',')
                 ops = []
@@ -501,7 +502,7 @@ def translate_function(f, tid=None, seq=False, opts=None):
                     out.append('  if (%s) { %s } else { %s }' % (e.cval(c), goto(b.name, a.v), goto(b.name, b2.v)))
             elif op == 'ret':
                 ty = M.parse_type(tk)
-                if seq: out.append('  TH[%d].done = 1; TH[%d].pc = -1; return;' % (tid, tid))
+                if seq: out.append('  TH[%d].done = 1; TH[%d].pc = -1; VERIF_PROG = 1; return;' % (tid, tid))
                 elif isinstance(ty, VoidT): out.append('  return;')
                 else: out.append('  return %s;' % e.cval(parse_value(tk, ty)))
             elif op == 'unreachable':
@@ -512,14 +513,14 @@ def translate_function(f, tid=None, seq=False, opts=None):
                 lt = LitStructT([ty, IntT(1)], False); M.lits[lt.c()] = lt
                 e.reg(dst, lt); visible()
                 if opts.get('tso'): out.append('  tso_commit(%d);' % tid)
-                out.append('  { %s o = *%s; %s.f0 = o; %s.f1 = (o == %s); if (o == %s) *%s = %s; }' % (ty.c(), e.cval(p), e.reg(dst), e.reg(dst), e.cval(old), e.cval(old), e.cval(p), e.cval(new)))
+                out.append('  { %s o = *%s; %s.f0 = o; %s.f1 = (o == %s); if (o == %s) { *%s = %s;%s } }' % (ty.c(), e.cval(p), e.reg(dst), e.reg(dst), e.cval(old), e.cval(old), e.cval(p), e.cval(new), PROG(tid, seq)))
             elif op == 'atomicrmw':
                 tk.eat('volatile'); rop = tk.word(); pt = M.parse_type(tk); p = parse_value(tk, pt); tk.expect(','); ty = M.parse_type(tk); v = parse_value(tk, ty)
                 e.reg(dst, ty); visible()
                 if opts.get('tso'): out.append('  tso_commit(%d);' % tid)
                 cop = {'add': '+', 'sub': '-', 'and': '&', 'or': '|', 'xor': '^'}.get(rop)
-                if rop == 'xchg': out.append('  %s = *%s; *%s = %s;' % (e.reg(dst), e.cval(p), e.cval(p), e.cval(v)))
-                else: out.append('  %s = *%s; *%s = (%s)(%s %s %s);' % (e.reg(dst), e.cval(p), e.cval(p), ty.c(), e.reg(dst), cop, e.cval(v)))
+                if rop == 'xchg': out.append('  %s = *%s; *%s = %s;%s' % (e.reg(dst), e.cval(p), e.cval(p), e.cval(v), PROG(tid, seq)))
+                else: out.append('  %s = *%s; *%s = (%s)(%s %s %s);%s' % (e.reg(dst), e.cval(p), e.cval(p), ty.c(), e.reg(dst), cop, e.cval(v), PROG(tid, seq)))
             elif op == 'fence':
                 if opts.get('tso'): visible(); out.append('  tso_commit(%d);' % tid)
             elif op == 'extractvalue':
@@ -583,14 +584,14 @@ def translate_function(f, tid=None, seq=False, opts=None):
                     continue
                 if callee.kind == 'global' and callee.v == 'verif_park':
                     k = e.nvis; e.nvis += 1; e.resume.append((k, '%sV_%d' % (e.pfx, k)))
-                    out.append('  %sV_%d: if (!*%s) { TH[%d].pc = %d; TH[%d].blocked = 1; return; } TH[%d].blocked = 0;' % (e.pfx, k, e.cval(args[0]), tid, k, tid, tid))
+                    out.append('  %sV_%d: if (!*%s) { TH[%d].pc = %d; TH[%d].blocked = 1; return; } TH[%d].blocked = 0;%s' % (e.pfx, k, e.cval(args[0]), tid, k, tid, tid, PROG(tid, seq)))
                     continue
                 if callee.kind == 'global' and callee.v.startswith('nondet_'):
                     e.reg(dst, rty)
                     out.append('  %s = (%s)VERIF_CHOICE();' % (e.reg(dst), rty.c())); continue
                 if callee.kind == 'global' and callee.v == 'verif_stop':
                     if not seq: raise NotImplementedError('verif_stop in plain function ' + f.name)
-                    out.append('  TH[%d].done = 1; TH[%d].pc = -1; return;' % (tid, tid)); continue
+                    out.append('  TH[%d].done = 1; TH[%d].pc = -1; VERIF_PROG = 1; return;' % (tid, tid)); continue
                 if callee.kind == 'global' and callee.v == 'verif_yield':
                     if seq:
                         k = e.nvis; e.nvis += 1; e.resume.append((k, '%sV_%d' % (e.pfx, k)))
@@ -605,7 +606,6 @@ def translate_function(f, tid=None, seq=False, opts=None):
                         e.reg(dst, rty); out.append('  %s = 0;' % e.reg(dst))
                     continue
                 if callee.kind == 'global' and callee.v == 'verif_check':
-                    if seq: visible()
                     out.append('  __CPROVER_assert(%s, "VERIF %s");' % (e.cval(args[0]), str_of_global_arg(args[1]) or 'harness check')); continue
                 if callee.kind == 'global' and callee.v == 'verif_witness':
                     out.append('  __CPROVER_assert(!(%s), "WITNESS %s");' % (e.cval(args[0]), 'end state reachable')); continue
@@ -735,10 +735,10 @@ def main():
     P = print
     P('/* generated by irseq.py from LLVM IR of the real sources; do not edit */')
     P('#include <stdint.h>\n#include <string.h>\n#include <stdlib.h>')
-    P('#ifndef VERIF_NATIVE\nlong nondet_long(void); long VERIF_NDV;\n#define VERIF_CHOICE() (VERIF_NDV = nondet_long())\n#endif')
+    P('#ifndef VERIF_NATIVE\nlong nondet_long(void); long VERIF_NDV;\n#define VERIF_CHOICE() (VERIF_NDV = nondet_long())\n#define VERIF_TRACE(t, cs)\n#endif')
     P('\n'.join(decls))
     P('int PEND_V[8], PEND_L[8]; uint64_t PEND_X[8]; static void tso_commit(int t);')
-    P('struct th { int pc; int done; int blocked; int spin; int held; }; int CUR_TID; int VERIF_STUCK; struct th TH[%d];' % max(1, N))
+    P('struct th { int pc; int done; int blocked; int spin; int held; }; int CUR_TID; int VERIF_STUCK; int VERIF_PROG; struct th TH[%d];' % max(1, N))
     # prototypes
     def proto(f, name=None):
         ps = ', '.join(p[0].c() for p in f.params)
@@ -751,6 +751,14 @@ def main():
         P(proto(d) + ';')
     for n, f in M.funcs.items():
         P(proto(f) + ';')
+    P('#ifdef VERIF_NATIVE')
+    for n, d in M.decls.items():
+        if n in havoc_ok and n in CALLED:
+            ps = ', '.join('%s a%d' % (p[0].c(), i) for i, p in enumerate(d.params))
+            if d.va: ps = (ps + ', ...') if ps else ''
+            body = '{ }' if isinstance(d.ret, VoidT) else '{ return (%s)0; }' % d.ret.c()
+            P('%s %s(%s) %s' % (d.ret.c(), cfname(n), ps or 'void', body))
+    P('#endif')
     em0 = Emit(None)
     # globals: declarations first (they may reference each other), then definitions with initialisers
     for n, g in M.globals.items():
@@ -805,15 +813,17 @@ def main():
         if 'verif_init' in M.funcs: P('  F_verif_init();')
         for r in range(R):
             for t in (order[r] if order else range(N)):
-                P('  if (!TH[%d].done) { int cs = (int)VERIF_CHOICE(); TH[%d].spin = 0; CUR_TID = %d; run_t%d(cs); }' % (t, t, t, t))
+                P('  if (!TH[%d].done) { int cs = (int)VERIF_CHOICE(); TH[%d].spin = 0; CUR_TID = %d; run_t%d(cs); VERIF_TRACE(%d, cs); }' % (t, t, t, t, t))
                 if opts.get('tso'): P('  tso_flush_some();')
         if opts.get('tso'): P('  tso_flush_all();')
         P('  { int pcb[%d];' % N)
-        for q in range(cfg.get('quiesce', 2)):
+        NQ = cfg.get('quiesce', 2)
+        for q in range(NQ):
+            if q == NQ - 1: P('  VERIF_PROG = 0;')
             for t in range(N):
-                P('  pcb[%d] = TH[%d].pc; if (!TH[%d].done) { TH[%d].spin = 0; CUR_TID = %d; run_t%d(-1); }' % (t, t, t, t, t, t))
+                P('  pcb[%d] = TH[%d].pc; if (!TH[%d].done) { TH[%d].spin = 0; CUR_TID = %d; run_t%d(-1); VERIF_TRACE(%d, -1); }' % (t, t, t, t, t, t, t))
                 if opts.get('tso'): P('  tso_flush_all();')
-        P('  int unfinished = 0, stuck = 1;')
+        P('  int unfinished = 0, stuck = !VERIF_PROG;')
         for t in range(N):
             P('  if (TH[%d].pc != pcb[%d]) stuck = 0; if (!TH[%d].done) { unfinished = 1; if (!(TH[%d].blocked || TH[%d].spin)) stuck = 0; }' % (t, t, t, t, t))
         if not cfg.get('allow_deadlock'):
